@@ -1,5 +1,6 @@
 ------------------------------ MODULE MC_SphereRead ------------------------------
 EXTENDS SphereRead
-FsAll == {1, 2, 3, 4, 5, 6, 8, 10, 12}
+\* (16384: one frame fills a read exactly; 16386, 16401: one frame is LARGER than the 16 KiB read size)
+FsAll == {1, 2, 3, 4, 5, 6, 8, 10, 12, 16384, 16386, 16401}
 FsTiny == {2, 6}
 ===============================================================================
